@@ -716,3 +716,175 @@ def rule_performer_simulation(ctx, R: str):
       problems.append(f'instructions applied more than once: {seen_tokens}')
     ctx.check(R, not problems, tg.node, tg, f'plan "{pname}"', '; '.join(problems[:3]))
   ctx.sample(R, {'plans': list(plans)})
+
+
+# ----------------------------------------- graph rewrite simulation (real transformations)
+def _mk_graph(spec):
+  """spec = (ops [(label, inputs, outputs)], graph inputs, graph outputs, n tensors) -> (subgraph Obj, model Obj)"""
+  from sa.consteval import Obj  # pylint: disable=g-import-not-at-top
+  ops, gin, gout, nt = spec
+  tensors = [Obj('x:TensorT', {'name': f't{k}'.encode(), 'shape': [1, 4], 'type': 'F32', 'buffer': 0, 'quantization': None}) for k in range(nt)]
+  operators = [Obj('x:OperatorT', {'label': lab, 'opcodeIndex': 0, 'inputs': list(i), 'outputs': list(o)}) for lab, i, o in ops]
+  sg = Obj('x:SubGraphT', {'tensors': tensors, 'operators': operators, 'inputs': list(gin), 'outputs': list(gout), 'name': b'main'})
+  return sg
+
+
+def rule_graph_rewrite_simulation(ctx, R: str, title: str = None):
+  """transform_graph with the repository's own insert_quant / insert_dequant on
+  small label graphs (only quantize_tensor - the annotation of one tensor - is a
+  stand-in). The resulting graph is compared with an independently computed
+  reference rewriting, modulo the position of the new operators, which only
+  has to be topologically valid."""
+  from sa import absint  # pylint: disable=g-import-not-at-top
+  from sa.consteval import Obj, Ext  # pylint: disable=g-import-not-at-top
+  from sa import consteval  # pylint: disable=g-import-not-at-top
+  rs = ctx.rule(R, title or 'graph rewriting: after transform_graph the listed consumers (all occurrences) and, iff covered, the graph outputs read the new tensors; everything else is untouched; the graph is topologically valid', floor=1)
+  PERF = 'transformation_performer:TransformationPerformer'
+  tg = ctx.repo.func(f'{PERF}.transform_graph')
+  ctx.instance(R)
+  QT = {m.name: m for m in tables.enum(ctx, 'qtyping:QuantTransformation')}
+  BO = consteval.schema_enum('BuiltinOperator')
+  KIND_CODE = {'ADD_QUANTIZE': BO['QUANTIZE'], 'ADD_DEQUANTIZE': BO['DEQUANTIZE']}
+  # graphs ---------------------------------------------------------------
+  chain = ([('A', [0, 1], [2]), ('B', [2, 3], [4]), ('C', [4], [5])], [0], [5], 6)
+  fan = ([('A', [0], [1]), ('B', [1], [2]), ('C', [1, 1], [3]), ('D', [2, 3], [4])], [0], [4, 1], 5)       # t1: two consumers, twice in C, also a graph output
+  inout = ([('A', [0], [1])], [0], [1, 0], 2)                                                                  # input is also an output
+  tail = ([('A', [0], [1]), ('B', [1], [2]), ('C', [1, 2], [3])], [0], [1, 3], 4)                              # t1 is an output AND read by the last operator
+  second = ([('P', [0], [1]), ('Q', [1], [2])], [0], [2], 3)
+  S = lambda spec, plan: ([spec], {(0, t): v for t, v in plan.items()})
+  cases = [
+      ('quantize the input of A',) + S(chain, {0: [('ADD_QUANTIZE', [0])]}),
+      ('dequantize a weight for B',) + S(chain, {3: [('ADD_DEQUANTIZE', [1])]}),
+      ('SRQ island around B',) + S(chain, {2: [('ADD_QUANTIZE', [1])], 4: [('ADD_DEQUANTIZE', [2])]}),
+      ('output dequantized',) + S(chain, {5: [('ADD_DEQUANTIZE', [-1])]}),
+      ('every activation, in plan order',) + S(chain, {0: [('ADD_QUANTIZE', [0])], 2: [('ADD_DEQUANTIZE', [1])], 4: [('ADD_QUANTIZE', [2])], 5: [('ADD_DEQUANTIZE', [-1])]}),
+      ('every activation, in reverse plan order',) + S(chain, {5: [('ADD_DEQUANTIZE', [-1])], 4: [('ADD_QUANTIZE', [2])], 2: [('ADD_DEQUANTIZE', [1])], 0: [('ADD_QUANTIZE', [0])]}),
+      ('output quantized first, then inner tensors',) + S(chain, {5: [('ADD_QUANTIZE', [-1])], 2: [('ADD_QUANTIZE', [1])], 4: [('ADD_DEQUANTIZE', [2])]}),
+      ('repeated operand (listed once per occurrence, as plan generation does), one of two consumers',) + S(fan, {1: [('ADD_QUANTIZE', [2, 2])]}),
+      ('consumers listed out of execution order (they come from a set)',) + S(fan, {1: [('ADD_QUANTIZE', [2, 2, 1])]}),
+      ('consumers listed out of execution order, dequantize, output first',) + S(fan, {1: [('ADD_DEQUANTIZE', [-1, 2, 1, 2])]}),
+      ('consumer and graph output covered',) + S(fan, {1: [('ADD_DEQUANTIZE', [1, -1])]}),
+      ('consumer covered, graph output not',) + S(fan, {1: [('ADD_DEQUANTIZE', [1])]}),
+      ('two groups on one tensor',) + S(fan, {1: [('ADD_QUANTIZE', [1]), ('ADD_DEQUANTIZE', [2, 2, -1])]}),
+      ('chain DQ then Q for the same consumers',) + S(fan, {1: [('ADD_DEQUANTIZE', [1, 2, 2]), ('ADD_QUANTIZE', [1, 2, 2])], 2: [('ADD_QUANTIZE', [3])]}),
+      ('chain on the graph output after another insertion',) + S(chain, {2: [('ADD_QUANTIZE', [1])], 5: [('ADD_DEQUANTIZE', [-1]), ('ADD_QUANTIZE', [-1])], 4: [('ADD_DEQUANTIZE', [2])]}),
+      ('graph output only; the last operator also reads the tensor',) + S(tail, {1: [('ADD_DEQUANTIZE', [-1])]}),
+      ('graph output and the first reader; the last operator keeps the source',) + S(tail, {1: [('ADD_QUANTIZE', [1, -1])], 2: [('ADD_QUANTIZE', [2])]}),
+      ('graph input that is a graph output',) + S(inout, {0: [('ADD_QUANTIZE', [0, -1])]}),
+      ('graph input that is a graph output, output not covered',) + S(inout, {0: [('ADD_QUANTIZE', [0])], 1: [('ADD_DEQUANTIZE', [-1])]}),
+      ('weight quantized in place next to insertions',) + S(chain, {1: [('QUANTIZE_TENSOR', [0])], 2: [('ADD_QUANTIZE', [1])]}),
+      ('chain on the graph input (first op inserted at position 0)',) + S(chain, {0: [('ADD_QUANTIZE', [0]), ('ADD_DEQUANTIZE', [0])], 2: [('ADD_QUANTIZE', [1])]}),
+      ('two subgraphs, interleaved plan', [chain, second], {(0, 2): [('ADD_QUANTIZE', [1])], (1, 0): [('ADD_QUANTIZE', [0])], (1, 1): [('ADD_QUANTIZE', [1])], (1, 2): [('ADD_DEQUANTIZE', [-1]), ('ADD_QUANTIZE', [-1])], (0, 4): [('ADD_DEQUANTIZE', [2])], (0, 5): [('ADD_DEQUANTIZE', [-1])]}),
+      ('two subgraphs, second first', [chain, second], {(0, 0): [('ADD_QUANTIZE', [0])], (1, 1): [('ADD_DEQUANTIZE', [1])], (0, 2): [('ADD_DEQUANTIZE', [1])], (1, 2): [('ADD_QUANTIZE', [-1])]}),
+  ]
+  rs.exhaustive = True
+  hooks_proto = {
+      'schema_py_generated.OperatorT': lambda a, k: Obj('x:OperatorT', {'label': None, 'opcodeIndex': None, 'inputs': None, 'outputs': None}),
+      'schema_py_generated.TensorT': lambda a, k: Obj('x:TensorT', {'name': None, 'shape': None, 'type': None, 'buffer': None, 'quantization': None}),
+      'schema_py_generated.OperatorCodeT': lambda a, k: Obj('x:OperatorCodeT', {'builtinCode': None}),
+  }
+  quantized = []
+
+  def annotate(args, kwargs):
+    f = args[0].fields
+    quantized.append((f['subgraph'], f['tensor_id'], f['quant_params']))
+    return Obj('qtyping:TransformationInfo', {'op_id': 0, 'num_ops_added': 0, 'output_tensor_id': f['tensor_id']})
+  it = absint.Interp(ctx.repo, ctx.ev, hooks=dict(hooks_proto, **{'transformations.quantize_tensor:quantize_tensor': annotate}))
+  selfo = it.construct(PERF, [], {}, None, 0)   # ONE performer for all cases: a later call must not see the maps of an earlier one
+  for cname, specs, plan in cases:
+    del quantized[:]
+    sgs = [_mk_graph(sp) for sp in specs]
+    model = Obj('x:ModelT', {'subgraphs': sgs, 'operatorCodes': [Obj('x:OperatorCodeT', {'builtinCode': Ext('BuiltinOperator.ADD', BO['ADD'])})], 'buffers': [Obj('x:BufferT', {'data': None})]})
+    producer_of = []
+    for ops, gin, gout, nt in specs:
+      d = {}
+      for oi, (lab, i, o) in enumerate(ops):
+        for t in o:
+          d[t] = oi
+      producer_of.append(d)
+    insts = {}
+    for (g, t), lst in plan.items():
+      objs = [Obj('qtyping:TransformationInst', {'transformation': QT[k], 'tensor_id': t, 'producer': producer_of[g].get(t, -1), 'consumers': list(c), 'parameters': f'p{g}.{t}.{n}'}) for n, (k, c) in enumerate(lst)]
+      insts[f'g{g}t{t}'] = Obj('qtyping:TensorTransformationInsts', {'tensor_name': f'g{g}t{t}', 'subgraph_id': g, 'instructions': objs})
+    # reference rewriting ---------------------------------------------------
+    ref_ops = [{lab: (list(i), list(o)) for lab, i, o in sp[0]} for sp in specs]
+    ref_out = [list(sp[2]) for sp in specs]
+    ref_new = [[] for _ in specs]      # (kind, in tensor, out tensor)
+    ref_quantized = []                 # (subgraph, tensor, params token)
+    n_t = [sp[3] for sp in specs]
+    for (g, t), lst in plan.items():
+      added = []   # (consumers, out tensor)
+      for n, (k, c) in enumerate(lst):
+        cur = t
+        for pc, pt in added:
+          if set(pc) & set(c):
+            cur = pt
+        if k == 'QUANTIZE_TENSOR':
+          ref_quantized.append((g, cur, f'p{g}.{t}.{n}'))
+          continue
+        new = n_t[g]
+        n_t[g] += 1
+        ref_new[g].append((k, cur, new))
+        ref_quantized.append((g, new if k == 'ADD_QUANTIZE' else cur, f'p{g}.{t}.{n}'))
+        for ci in c:
+          if ci < 0:
+            ref_out[g] = [new if x == cur else x for x in ref_out[g]]
+          else:
+            lab = specs[g][0][ci][0]
+            ref_ops[g][lab] = ([new if x == cur else x for x in ref_ops[g][lab][0]], ref_ops[g][lab][1])
+        added.append((c, new))
+    # run the repository code ------------------------------------------------
+    outs = it.outcomes(tg, [selfo, insts, model], copy_args=False)
+    if len(outs) != 1 or outs[0].kind != 'return':
+      ctx.check(R, False, tg.node, tg, cname, f'not decided: {[o.short()[:120] for o in outs]}')
+      selfo = it.construct(PERF, [], {}, None, 0)
+      continue
+    problems = []
+    codes = model.fields['operatorCodes']
+    for g, sg in enumerate(sgs):
+      ops, gin, gout, nt = specs[g]
+      tag = f'subgraph {g}: ' if len(sgs) > 1 else ''
+      cur_ops = sg.fields['operators']
+      got_new = []
+      produced = set(gin) | {t for t in range(nt) if t not in producer_of[g]}
+      order = []
+      for op in cur_ops:
+        f = op.fields
+        if not isinstance(f['inputs'], list) or not isinstance(f['outputs'], list):
+          problems.append(f'{tag}operator with unfolded operands {f}')
+          continue
+        for x in f['inputs']:
+          if x != -1 and x not in produced:
+            problems.append(f'{tag}operator {f["label"] or "new"} reads tensor {x} before it is produced (operator order {[(o.fields["label"] or "new") for o in cur_ops]})')
+        for x in f['outputs']:
+          if x in produced and x != -1:
+            problems.append(f'{tag}tensor {x} has two producers')
+          produced.add(x)
+        if f['label'] is None:
+          code = codes[f['opcodeIndex']].fields['builtinCode'] if isinstance(f['opcodeIndex'], int) and f['opcodeIndex'] < len(codes) else None
+          val = code.value if isinstance(code, Ext) else code
+          kind = next((k for k, v in KIND_CODE.items() if v == val), f'<code {val}>')
+          got_new.append((kind, f['inputs'][0] if len(f['inputs']) == 1 else tuple(f['inputs']), f['outputs'][0] if len(f['outputs']) == 1 else tuple(f['outputs'])))
+        else:
+          order.append(f['label'])
+          want = ref_ops[g][f['label']]
+          if (f['inputs'], f['outputs']) != want:
+            problems.append(f'{tag}operator {f["label"]} reads {f["inputs"]} / writes {f["outputs"]}; expected {want[0]} / {want[1]}')
+      if order != [lab for lab, _, _ in ops]:
+        problems.append(f'{tag}original operators reordered or lost: {order}')
+      if sorted(got_new) != sorted(ref_new[g]):
+        problems.append(f'{tag}inserted operators (kind, in, out) {sorted(got_new)}; expected {sorted(ref_new[g])}')
+      if sg.fields['outputs'] != ref_out[g]:
+        problems.append(f'{tag}graph outputs {sg.fields["outputs"]}; expected {ref_out[g]}')
+      if sg.fields['inputs'] != list(gin):
+        problems.append(f'{tag}graph inputs {sg.fields["inputs"]}; expected {list(gin)}')
+      if len(sg.fields['tensors']) != n_t[g]:
+        problems.append(f'{tag}{len(sg.fields["tensors"])} tensors; expected {n_t[g]}')
+      names = [t.fields['name'] for t in sg.fields['tensors']]
+      if len(set(names)) != len(names) and not any(isinstance(x, absint.Opaque) for x in names):
+        problems.append(f'{tag}tensor names not unique: {names}')
+    got_q = sorted((sgs.index(a) if a in sgs else -9, b, c) for a, b, c in quantized)
+    if got_q != sorted(ref_quantized):
+      problems.append(f'tensors annotated as quantized (subgraph, tensor, params) {got_q}; expected {sorted(ref_quantized)}')
+    ctx.check(R, not problems, tg.node, tg, f'case "{cname}"', '; '.join(problems[:3]))
+  ctx.sample(R, {'cases': [c[0] for c in cases]})
